@@ -108,6 +108,9 @@ ASSUME Ms(R(SeqL(<<L("exp", 0, "", 1), Echo(2)>>), 0)) = <<>>
 \* command not found: continues
 ASSUME Seen(R(SeqL(<<Inv("nosuch"), P(2)>>), 0)) = <<<<2, 127>>>>
 
+\* simple.md "Exit status": no fields after expansion and no command substitution: zero
+ASSUME Seen(R(SeqL(<<Mk(1, 3), L("nil", 0, "", 0), P(2)>>), 0)) = <<<<1, 0>>, <<2, 0>>>>
+
 \* ---- errexit-p.sh ----
 ASSUME Ms(R(SeqL(<<False, Echo(1)>>), 0)) = <<1>> /\ R(SeqL(<<False, Echo(1)>>), 0).st = 0
 ASSUME Ms(R(SeqL(<<False, Echo(1)>>), 1)) = <<>> /\ R(SeqL(<<False, Echo(1)>>), 1).st # 0
